@@ -9,6 +9,7 @@ from ..model import AnalysisError, ClassInfo
 from ..symeval import SymEval
 from . import cli_common as cc
 from . import stft_common as sc
+from . import rng
 
 LEVEL = "other"
 TECHNIQUE = ("closed-form twin comparison (quasi-affine residue tables, witnesses) of the torch port's framing geometry "
@@ -422,6 +423,19 @@ def wrappers(ctx, R="R-C14-wrappers"):
                         break
             if done_:
                 continue
+        # a branch that never calls the wrapped routine returns something the library object did not compute
+        try:
+            leaves = list(cc.strip_cond(v))
+        except AnalysisError:
+            leaves = []
+        skipped = [(tests, leaf) for tests, leaf in leaves
+                   if not any(isinstance(x, S.E) and x.op == "call" and x.args[0] == "." + call_attr for x in S.walk(leaf))]
+        if len(leaves) > 1 and skipped and len(skipped) < len(leaves):
+            tests, leaf = skipped[0]
+            cond = " and ".join(("" if lbl == "T" else "not ") + S.show(t)[:70] for lbl, t in tests)
+            ctx.bad(R, fw, rnode, "when %s, %s.forward returns %s without calling self.%s.%s at all: the wrapped object decides what such an input gives "
+                    "(it has no such special case), the wrapper does not" % (cond, cname, S.show(leaf)[:80], target_attr, call_attr), what)
+            continue
         calls, syms = SC.vocabulary(v)
         known = {"torch.tensor", "." + call_attr, ".numpy", ".cpu", ".detach", ".clone", ".copy", "torch.as_tensor", "torch.from_numpy", ".to"}
         extra = {x for x in calls if not str(x).startswith("kw:")} - known
@@ -454,3 +468,6 @@ def wrappers(ctx, R="R-C14-wrappers"):
     want = S.add(sig, S.mul(coeff, S.call("torch.randn_like", sig)))
     ctx.check(S.compare(v, want, domain={})["verdict"] == "equal", R, f, ev.returns[0][2], "pytorch_dither is sig + coeff * randn_like(sig)",
               "pytorch_dither returns %s" % S.show(v)[:120])
+    fw = prog.find_method(prog.cls("torch.PyTorchDither"), "forward")
+    ctx.need(fw is not None, R, "PyTorchDither.forward not found")
+    rng.check(ctx, R, fw, {"torch.randn_like", "torch.randn", "torch.normal"}, "torch.manual_seed")
